@@ -8,7 +8,7 @@
    property under check are evaluated on (pre-state, event, post-state).  A trace is accepted iff
    every line is consumed.  `Active' selects which properties' predicates are enforced, so a
    check never fails on a predicate that belongs to another property.                          *)
-EXTENDS WpMath, WpIface, Json, IOUtils, TLC, Sequences, FiniteSets, FiniteSetsExt, SequencesExt
+EXTENDS WpMath, WpIface, WpMintAdmission, Json, IOUtils, TLC, Sequences, FiniteSets, FiniteSetsExt, SequencesExt
 
 CONSTANT Active          \* set of property ids, e.g. {"C01"}
 
@@ -685,8 +685,40 @@ C18Event(pre, e, post) ==
   /\ (e.name \in LockedForbidden /\ "position_token_account" \in DOMAIN e.slots) => Sub("locked_position_untouchable", ~Frozen(pre, e.slots.position_token_account.id))
   /\ C18State(post)
 
+(* C19: parameters in bounds (state invariant) and mint admission *)
+ValidAfConstants(sp, c) ==
+  /\ c.filter >= 1 /\ c.decay > c.filter /\ c.factor < 100000 /\ c.reduction < 10000
+  /\ (c.maxAcc \otimes c.groupSize) \preceq "4294967295"
+  /\ c.groupSize >= 1 /\ c.groupSize <= sp /\ sp % c.groupSize = 0
+  /\ c.majorTicks >= 1 /\ c.majorTicks <= sp * 88
+C19State(s) ==
+  /\ Sub("pool_bounds", \A p \in DOMAIN s.pool :
+         /\ s.pool[p].feeRate <= 60000 /\ s.pool[p].protoRate <= 2500 /\ s.pool[p].spacing > 0 /\ s.pool[p].mintsOrdered
+         /\ MinSqrtPrice \preceq s.pool[p].sqrtPrice /\ s.pool[p].sqrtPrice \preceq MaxSqrtPrice)
+  /\ Sub("tier_bounds", \A t \in DOMAIN s.tier : s.tier[t].defaultFeeRate <= 60000 /\ s.tier[t].spacing > 0)
+  /\ Sub("adaptive_tier_bounds", \A t \in DOMAIN s.atier : s.atier[t].baseFeeRate <= 60000 /\ s.atier[t].spacing > 0 /\ ValidAfConstants(s.atier[t].spacing, s.atier[t]))
+  /\ Sub("config_bounds", \A c \in DOMAIN s.cfg : s.cfg[c].defaultProtoRate <= 2500)
+  /\ Sub("oracle_constants", \A p \in DOMAIN s.oracle : p \in DOMAIN s.pool => ValidAfConstants(s.pool[p].spacing, s.oracle[p]))
+
+MintRec(s, m) == [prog |-> s.mint[m].prog, exts |-> s.mint[m].exts, freeze |-> s.mint[m].freeze, defaultState |-> s.mint[m].defaultState,
+                  tlvOk |-> s.mint[m].tlvOk, native |-> s.mint[m].native]
+Badged(s, cfg, m) == \E b \in DOMAIN s.badge : s.badge[b].cfg = cfg /\ s.badge[b].mint = m
+MintOK(s, cfg, m) == m \in DOMAIN s.mint /\ s.mint[m].init /\ Admitted(MintRec(s, m), Badged(s, cfg, m))
+C19Admission(pre, e) ==
+  CASE e.name \in {"initialize_pool_v2", "initialize_pool_with_adaptive_fee"} ->
+         Sub("pool_mints_admitted", MintOK(pre, e.slots.whirlpools_config.id, e.slots.token_mint_a.id) /\ MintOK(pre, e.slots.whirlpools_config.id, e.slots.token_mint_b.id))
+    [] e.name = "initialize_reward_v2" ->
+         Sub("reward_mint_admitted", e.slots.whirlpool.id \in DOMAIN pre.pool /\ MintOK(pre, pre.pool[e.slots.whirlpool.id].cfg, e.slots.reward_mint.id))
+    [] e.name = "initialize_pool" ->
+         Sub("v1_pool_spl_only", \A m \in {e.slots.token_mint_a.id, e.slots.token_mint_b.id} : m \in DOMAIN pre.mint /\ pre.mint[m].prog = "spl")
+    [] e.name = "initialize_reward" ->
+         Sub("v1_reward_spl_only", e.slots.reward_mint.id \in DOMAIN pre.mint /\ pre.mint[e.slots.reward_mint.id].prog = "spl")
+    [] OTHER -> TRUE
+
 (* the per-event transition *)
 IxOK(pre, e, post) ==
+  /\ Chk("C19", "params_in_bounds", C19State(post))
+  /\ Chk("C19", "mint_admission", C19Admission(pre, e))
   /\ Chk("C18", "life_cycle", C18Event(pre, e, post))
   /\ IF IsSwapName(e.name) THEN Chk("C10", "path", C10Swap(pre, e, post)) ELSE TRUE
   /\ Chk("C10", "packaging", C10Pack(pre, e))
@@ -742,6 +774,7 @@ Next ==
             /\ st' = [sec \in Sections |-> e.state[sec]] @@ [prices |-> e.prices, now |-> e.now]
             /\ gh' = [seg |-> <<>>, led |-> IF "C07" \in Active THEN [k \in DOMAIN e.state.pos |-> LedOpen(st', k)] ELSE <<>>,
                       rled |-> IF "C11" \in Active THEN [k \in DOMAIN e.state.pos |-> RLedOpen(st', k)] ELSE <<>>]
+            /\ Chk("C19", "params_in_bounds_reset", C19State(st'))
             /\ Chk("C05", "liq_sums_reset", C05State(st'))
             /\ Chk("C01", "solvent_reset", Solvent(st'))
        [] e.k = "clock" ->
